@@ -200,6 +200,10 @@ def other_atoms(val):
 def path_roots(lf):
     """(index, kind, node) of everything evaluated on a dtable path, in order: 'expr', 'decl' (the VarDecl), 'loop', 'ret'"""
     out = []
+    if lf["stop"][0] in ("goto", "break", "continue"):
+        # the path jumps out of what was explored: what it executes after the jump is not in the event list, and 'the
+        # expected operation is not on the path' would be a conclusion from code that was not looked at
+        raise Und("a path leaves the explored fragment by %s; where it continues is not followed" % lf["stop"][0])
     for i, ev in enumerate(lf["events"]):
         if ev[0] in ("expr", "decl", "loop"):
             out.append((i, ev[0], ev[1]))
@@ -539,7 +543,13 @@ def check_free_node(ck, tree, fn):
                     if len(args) < 2:
                         und(fn, e, "release call with an unexpected argument list")
                     at = node_kind(strip_casts(args[0]).get("ty"))
-                    pt = node_kind(strip_casts(args[1]).get("ty"))
+                    # the node type the pointer is released as is its static type as passed: an explicit cast written in
+                    # the argument (static_cast<LeafNode*>(n)) counts, implicit conversions do not
+                    passed = args[1]
+                    while passed is not None and passed["k"] == "ImplicitCastExpr" and kids(passed):
+                        passed = kids(passed)[0]
+                    pt = node_kind(passed.get("ty")) if passed is not None else None
+                    pt = pt or node_kind(strip_casts(args[1]).get("ty"))
                     origin = args[0]
                     d = ref_of(args[0])
                     if d in env and isinstance(env[d], dict):
@@ -658,19 +668,26 @@ def check_init_null(ck, tree, fn):
 COPYLIKE = ("copy", "copy_backward", "move", "move_backward", "copy_n", "memmove", "memcpy")
 
 
-def slotuse_delta(z):
+def slotuse_delta(z, loc=None):
     """amount by which z lowers some node's slotuse (--x->slotuse, x->slotuse -= c, x->slotuse = x->slotuse - c); None if z is
-    no such update, 'set' if slotuse is assigned in another form"""
+    no such update, 'set' if slotuse is assigned in another form.  loc: the target may be a reference local bound to
+    x->slotuse"""
     if z["k"] not in ("UnaryOperator", "BinaryOperator", "CompoundAssignOperator"):
         return None
+
+    def target(e):
+        d = ref_of(e)
+        if loc is not None and d is not None and d in loc.refs and d in loc.inits:
+            return loc.inits[d]
+        return e
     u = match.unop(z, ("++", "--"))
     if u:
-        f = match.field_of(u[1])
+        f = match.field_of(target(u[1]))
         return (1 if u[0] == "--" else -1) if f and f[1] == "slotuse" else None
     b = match.binop(z, ("=", "+=", "-="))
     if not b:
         return None
-    f = match.field_of(b[1])
+    f = match.field_of(target(b[1]))
     if not f or f[1] != "slotuse":
         return None
     if b[0] in ("+=", "-="):
@@ -683,9 +700,11 @@ def slotuse_delta(z):
     return "set"
 
 
-def childid_write(z):
-    """z overwrites entries of some node's childid[] array"""
+def childid_write(z, loc=None):
+    """z overwrites entries of some node's childid[] array (loc: the destination may be named through const locals)"""
     if is_call(z, *COPYLIKE) and len(kids(z)) >= 3 and mentions_member(kids(z)[2], "childid"):
+        return True
+    if loc is not None and is_call(z, *COPYLIKE) and len(kids(z)) >= 3 and mentions_member(loc.expand(kids(z)[2]), "childid"):
         return True
     b = match.binop(z, ("=",)) if z["k"] in ("BinaryOperator",) else None
     if b:
@@ -695,6 +714,71 @@ def childid_write(z):
     return False
 
 
+def reaches_tu(tu, cal, pred, depth=0, seen=None):
+    """cal or a function of the program that it calls (transitively; closures, static and free helpers included) contains a
+    node satisfying pred"""
+    seen = set() if seen is None else seen
+    if cal is None or cal.body is None or cal.did in seen:
+        return False
+    if depth > 5:
+        return True
+    seen.add(cal.did)
+    for q in cal.nodes():
+        if pred(q):
+            return True
+        if is_call(q) and reaches_tu(tu, tu.by_did.get(q["callee"].get("did")), pred, depth + 1, seen):
+            return True
+    return False
+
+
+def foreign_reaching(tree, fn, nodes, pred):
+    """the calls among nodes that run a function of the program which is not a member helper on *this (those are followed by
+    own_call / reaches): a closure, a static or free helper, a member of another object - and which reaches (transitively) a
+    node satisfying pred.  What such a call does is invisible to a rule that scans the caller's own nodes, so 'the effect is
+    not on this path' is no evidence while one of them is on the path"""
+    out = []
+    for z in nodes:
+        if not is_call(z):
+            continue
+        cal = fn.tu.by_did.get(z["callee"].get("did"))
+        if cal is None or cal.body is None or cal.did == fn.did or (tree is not None and own_call(tree, z) is not None):
+            continue
+        if reaches_tu(fn.tu, cal, pred):
+            out.append(z)
+    return out
+
+
+def indirect_unlink_op(tree, fn, z):
+    """z may free a node, overwrite child pointers or change a fill level in a way the operation list does not name: through a
+    function of the program that is not a member helper on *this (a closure, a static or free helper), or through a
+    reference / pointer local.  -> description, or None"""
+    if is_call(z) and own_call(tree, z) is None and not is_call(z, "free_node"):
+        cal = fn.tu.by_did.get(z["callee"].get("did"))
+        if cal is not None and cal.did != fn.did and \
+                reaches_tu(fn.tu, cal, lambda q: is_call(q, "free_node") or childid_write(q) or slotuse_delta(q) is not None):
+            return "%s() frees nodes / writes childid[] or slotuse and is not followed" % z["callee"]["name"]
+        if is_call(z, *COPYLIKE) and len(kids(z)) >= 3 and not mentions_member(kids(z)[2], "childid") and \
+                any(q["k"] == "DeclRefExpr" and ptr_to_ptr(q.get("ty")) for q in walk(kids(z)[2])):
+            return "%s() writes through a local pointer that may point into the child array" % z["callee"]["name"]
+    t = store_target(z) if z["k"] in ("UnaryOperator", "BinaryOperator", "CompoundAssignOperator", "CXXOperatorCallExpr") else None
+    t = unparen(t) if t is not None else None
+    if t is not None:
+        ty = (t.get("ty") or "").replace("const ", "").strip()
+        relevant = ty == "unsigned short" or node_ptr_type(ty)
+        if relevant and t["k"] == "DeclRefExpr" and (t["ref"].get("vty") or "").rstrip().endswith("&"):
+            return "store through the reference %s (may be a fill level or a child pointer)" % t["ref"]["name"]
+        if relevant and t["k"] != "DeclRefExpr":
+            base = match.deref_of(t)
+            if base is None and match.index_parts(t):
+                base = match.index_parts(t)[0]
+            base = unparen(base) if base is not None else None
+            while base is not None and match.binop(base, ("+", "-")):
+                base = unparen(match.binop(base, ("+", "-"))[1])
+            if base is not None and base["k"] == "DeclRefExpr":
+                return "store through the local pointer %s (may point at a fill level or into the child array)" % base["ref"]["name"]
+    return None
+
+
 def fixmerge_ops(tree, fn, stmt, atomize, depth=0):
     """every path through stmt as a list of operations in execution order:
     ('def', did, expr)  a local/parameter receives a value     ('free', arg, node)   free_node(arg)
@@ -702,6 +786,7 @@ def fixmerge_ops(tree, fn, stmt, atomize, depth=0):
     ('unk', node, why)  an operation on the child array / fill level of an unknown kind
     -> list of (valuation, ops)"""
     out = []
+    loc = Locals(fn)
     for lf in dtable.explore(stmt, atomize, fn):
         paths = [[]]
 
@@ -716,6 +801,9 @@ def fixmerge_ops(tree, fn, stmt, atomize, depth=0):
                     emit(("ow", root))
                 if any(slotuse_delta(z) is not None for z in walk(root)):
                     emit(("unk", root, "slotuse changed inside a loop"))
+                hid = [h for h in (indirect_unlink_op(tree, fn, z) for z in walk(root)) if h]
+                if hid:
+                    emit(("unk", root, hid[0] + " (inside a loop / switch)"))
                 continue
             if what == "decl":
                 init = kids(root)[0] if kids(root) else None
@@ -731,10 +819,10 @@ def fixmerge_ops(tree, fn, stmt, atomize, depth=0):
             for z in seq:
                 if is_call(z, "free_node") and len(kids(z)) >= 2:
                     emit(("free", kids(z)[1], z))
-                elif childid_write(z):
+                elif childid_write(z, loc):
                     emit(("ow", z))
-                elif slotuse_delta(z) is not None:
-                    d = slotuse_delta(z)
+                elif slotuse_delta(z, loc) is not None:
+                    d = slotuse_delta(z, loc)
                     emit(("unk", z, "slotuse assigned in an unrecognised form") if d == "set" else ("dec", d))
                 elif own_call(tree, z) is not None and z["callee"]["name"] != fn.name:
                     cal = own_call(tree, z)
@@ -756,6 +844,14 @@ def fixmerge_ops(tree, fn, stmt, atomize, depth=0):
                         if base is not None and base["k"] == "MemberExpr" and base.get("member") == "childid":
                             emit(("unk", z, "%s() receives the child array" % z["callee"]["name"]))
                             break
+                    else:
+                        hidden = indirect_unlink_op(tree, fn, z)
+                        if hidden:
+                            emit(("unk", z, hidden))
+                else:
+                    hidden = indirect_unlink_op(tree, fn, z)
+                    if hidden:
+                        emit(("unk", z, hidden))
             if what == "decl":
                 emit(("def", root["did"], kids(root)[0]))
         for p in paths:
@@ -809,7 +905,11 @@ def _one_check_free_on_unlink(ck, tree, name):
             if not defs:
                 break
             t, e = defs[-1][0], strip_casts(defs[-1][1][2])
+        if ref_of(e) is None:
+            e = strip_casts(Locals(fn).expand(e))      # *gap with  node** const gap = inner->childid + slot
         ip = match.index_parts(e)
+        if ip is None and match.deref_of(e) is not None and match.binop(match.deref_of(e), ("+",)):
+            ip = match.binop(match.deref_of(e), ("+",))[1:]            # *(x->childid + i)
         is_child = ip is not None and match.field_of(ip[0]) and match.field_of(ip[0])[1] == "childid"
         if not is_child:
             if roles.param_of(e) is not None or match.this_field(e) is not None:
@@ -830,6 +930,181 @@ def _one_check_free_on_unlink(ck, tree, name):
     else:
         ck.ok("FREE-ON-UNLINK", tree.where(fn), "%d paths: childid[slot] is read for free_node() before the copy that closes the gap; "
               "slotuse decremented" % len(paths))
+
+
+# ------------------------------------------------------------------ closed world of the alias model (btcommon.Shape)
+# Shape.ev() executes assignment chains whose targets are locals, this->owner and <node>->link, and allocate_leaf(); every
+# other construct is skipped without a trace.  A store the model skipped must never be read as 'the store is absent': the
+# functions below find every construct through which a chain pointer, an owner or a node pointer local can change without
+# the model executing it.
+CHAINF = B.LINKS + B.OWNERS
+
+
+def unparen(e):
+    e = strip_casts(e)
+    while e is not None and e["k"] in ("ParenExpr", "ExprWithCleanups", "MaterializeTemporaryExpr") and kids(e):
+        e = strip_casts(kids(e)[0])
+    return e
+
+
+def node_ptr_type(ty, leaf_only=False):
+    """ty is a pointer (one level; a reference to one counts) to a tree node"""
+    t = (ty or "").replace("const", "").replace("struct ", "").replace(" ", "").rstrip("&")
+    if not t.endswith("*") or t.endswith("**"):
+        return False
+    t = t[:-1]
+    return t.endswith("::LeafNode") or (not leaf_only and (t.endswith("::InnerNode") or t.endswith("::node")))
+
+
+def store_target(z):
+    """the lvalue that z writes (assignment of any form, ++ / --), else None"""
+    if z["k"] in ("BinaryOperator", "CompoundAssignOperator", "CXXOperatorCallExpr"):
+        b = match.binop(z)
+        if b and b[0].endswith("=") and b[0] not in ("==", "!=", "<=", ">="):
+            return b[1]
+    if z["k"] in ("UnaryOperator", "CXXOperatorCallExpr"):
+        u = match.unop(z, ("++", "--"))
+        if u:
+            return u[1]
+    return None
+
+
+def chain_lvalue(t):
+    """the lvalue t may name a chain pointer, an owner, or a node pointer that the alias model keeps in its environment"""
+    t = unparen(t)
+    if t is None:
+        return False
+    if t["k"] == "MemberExpr" and t.get("member") in CHAINF:
+        return True
+    if t["k"] == "DeclRefExpr":
+        return node_ptr_type(t.get("ty"))
+    return node_ptr_type(t.get("ty"), leaf_only=True)         # s.field, *pp, a[i], c ? x : y, f() of type LeafNode*
+
+
+def writable_ref(p):
+    """the parameter p is a reference through which the callee can write"""
+    ty = (p.get("ty") or "").strip()
+    if not ty.endswith("&"):
+        return False
+    core = ty.rstrip("&").rstrip()
+    if core.endswith("const"):
+        return False                                # T *const &
+    return "*" in core or not core.startswith("const ")
+
+
+_touch_cache = {}
+
+
+def touches_chain(tu, cal, depth=0, seen=None):
+    """cal (or a function of the program that it calls) names a chain pointer or an owner; a closure also when it writes a
+    node pointer of its environment"""
+    key = (id(tu), cal.did)
+    if key in _touch_cache:
+        return _touch_cache[key]
+    seen = set() if seen is None else seen
+    if cal.did in seen or cal.body is None:
+        return False
+    seen.add(cal.did)
+    res = False
+    own = {p["did"] for p in cal.params} | {z["did"] for z in walk(cal.body) if z["k"] == "VarDecl" and "did" in z}
+    for z in walk(cal.body):
+        if z["k"] == "MemberExpr" and z.get("member") in CHAINF:
+            res = True
+            break
+        t = store_target(z)
+        t = unparen(t) if t is not None else None
+        if t is not None and t["k"] == "DeclRefExpr" and node_ptr_type(t.get("ty")) and t["ref"]["id"] not in own:
+            res = True
+            break
+        if is_call(z):
+            sub = tu.by_did.get(z["callee"].get("did"))
+            if sub is not None and (depth >= 5 or touches_chain(tu, sub, depth + 1, seen)):
+                res = True
+                break
+    if depth == 0:
+        _touch_cache[key] = res
+    return res
+
+
+def call_may_write(fn, z, callees=True):
+    """the call z may change the state of the alias model: it receives a chain pointer / node pointer local by a reference it
+    can write through, or (callees) its callee touches the chain itself"""
+    if is_call(z, "allocate_leaf", "is_leafnode"):
+        return False
+    cal = fn.tu.by_did.get(z["callee"].get("did"))
+    args = kids(z)
+    if z.get("member_call") or (z["k"] == "CXXOperatorCallExpr" and (z.get("op") == "()" or (cal is not None and cal.record))):
+        args = args[1:]
+    for i, a in enumerate(args):
+        a0 = unparen(a)
+        if a0 is None or not a0.get("lv") or not chain_lvalue(a0):
+            continue
+        if cal is None or i >= len(cal.params) or writable_ref(cal.params[i]):
+            return True
+    if callees and cal is not None and cal.body is not None and touches_chain(fn.tu, cal):
+        return True
+    return False
+
+
+def opaque_effect(fn, e, callees=True, skip=()):
+    """the first node at or below e that may change the state of the alias model (the model executes nothing below e but reads
+    and allocate_leaf()); skip: declarations whose stores do not count (locals of a loop)"""
+    for z in walk(e):
+        t = store_target(z)
+        if t is not None and chain_lvalue(t):
+            t0 = unparen(t)
+            if not (t0["k"] == "DeclRefExpr" and t0["ref"]["id"] in skip):
+                return z
+        if z["k"] == "UnaryOperator" and z.get("op") == "&" and kids(z) and chain_lvalue(kids(z)[0]):
+            return z
+        if is_call(z) and call_may_write(fn, z, callees):
+            return z
+    return None
+
+
+def hidden_effect(fn, e, cond=False, comma=False, callees=True):
+    """the first node of the full expression e that may change the state of the alias model and that Shape.ev() / Shape.cond()
+    does not execute; None if the model executes every such effect of e.  Executed: assignment chains a = b = c whose targets
+    are locals, owners of *this and links; with comma the operands of a comma expression; in a condition the operands of
+    ! && || == !="""
+    e = unparen(e)
+    if e is None:
+        return None
+    k = e["k"]
+    if k == "BinaryOperator" and e.get("op") == "=":
+        lhs = unparen(kids(e)[0])
+        r = None
+        if lhs is not None and lhs["k"] == "DeclRefExpr":
+            pass
+        elif lhs is not None and lhs["k"] == "MemberExpr" and lhs.get("member") in CHAINF and kids(lhs):
+            base = unparen(kids(lhs)[0])
+            if lhs.get("member") in B.OWNERS and (base is None or base["k"] != "This"):
+                return e                               # an owner reached through another name of the tree
+            r = opaque_effect(fn, base, callees)
+        elif chain_lvalue(lhs):
+            return e
+        else:
+            r = opaque_effect(fn, lhs, callees)
+        return r or hidden_effect(fn, kids(e)[1], False, comma, callees)
+    if k == "BinaryOperator" and e.get("op") == "," and comma:
+        return hidden_effect(fn, kids(e)[0], False, True, callees) or hidden_effect(fn, kids(e)[1], cond, True, callees)
+    if cond and k == "UnaryOperator" and e.get("op") == "!":
+        return hidden_effect(fn, kids(e)[0], True, comma, callees)
+    if cond and k == "BinaryOperator" and e.get("op") in ("&&", "||"):
+        return hidden_effect(fn, kids(e)[0], True, comma, callees) or hidden_effect(fn, kids(e)[1], True, comma, callees)
+    if cond and k == "BinaryOperator" and e.get("op") in ("==", "!="):
+        return hidden_effect(fn, kids(e)[0], False, comma, callees) or hidden_effect(fn, kids(e)[1], False, comma, callees)
+    return opaque_effect(fn, e, callees)
+
+
+def involved_conditional(e):
+    """a conditional operator in e that selects between chain pointers / node pointers (the innermost one first when the
+    condition of one contains another)"""
+    for z in walk(e):
+        if z["k"] == "ConditionalOperator" and len(kids(z)) == 3 and (node_ptr_type(z.get("ty")) or mentions_member(z, *CHAINF)):
+            inner = involved_conditional(kids(z)[0])
+            return inner if inner is not None else z
+    return None
 
 
 class RootShape(B.Shape):
@@ -918,11 +1193,21 @@ def root_path(tree, fn, roles, kind, region, lf):
         if what == "decl":
             init = kids(root)[0] if kids(root) else None
             if init is not None:
+                h = hidden_effect(fn, init, callees=False)
+                if h is not None:
+                    und(fn, h, "%s may change an owner or a node pointer on the root-collapse path and is not executed by the alias model"
+                        % dtable.describe(h))
                 val = sh.ev(init, st)
                 if val is not None or "*" in (root.get("ty") or ""):
                     st.env[root["did"]] = val if val is not None else "unknown:%s" % root.get("name")
             continue
         e = root
+        # closed world: a store to an owner / node pointer in a form the model skips (std::tie, std::exchange, a conditional
+        # lvalue, a struct field ...) must not be read as 'the owner keeps its value'
+        h = hidden_effect(fn, e, callees=False)
+        if h is not None:
+            und(fn, h, "%s may change an owner or a node pointer on the root-collapse path and is not executed by the alias model"
+                % dtable.describe(h))
         if sh.freed and any(is_call(z, *B.REBAL) for z in walk(e)):
             z = [z for z in walk(e) if is_call(z, *B.REBAL)][0]
             return "execution continues with the freed root: %s() is called at line %s" % (z["callee"]["name"], z.get("l"))
@@ -1086,7 +1371,9 @@ def check_clear_fn(ck, tree):
                         else:
                             do_expr(s2, depth + 1)
                     return
-            if any(own_call(tree, z) is not None for z in walk(e)) or mentions_member(e, *(B.OWNERS + ("stats_",))):
+            if any(own_call(tree, z) is not None for z in walk(e)) or mentions_member(e, *(B.OWNERS + ("stats_",))) or \
+                    foreign_reaching(tree, fn, walk(e), lambda q: is_call(q, "clear_recursive", "free_node") or
+                                     (q["k"] == "MemberExpr" and q.get("member") in B.OWNERS + ("stats_",))):
                 # asserts on stats_ are compiled out; anything else that reaches the owners is not understood
                 unknown.append(e)
         for i, what, root in path_roots(lf):
@@ -1147,7 +1434,8 @@ def check_dtor(ck, tree):
     if calls_reaching(tree, dt[0], "clear"):
         ck.ok("CLEAR-RESET", tree.where(dt[0]), "calls clear()")
     else:
-        other = [z for z in dt[0].nodes() if own_call(tree, z) is not None or is_call(z, "free_node", "clear_recursive")]
+        other = [z for z in dt[0].nodes() if own_call(tree, z) is not None or is_call(z, "free_node", "clear_recursive")] + \
+            foreign_reaching(tree, dt[0], dt[0].nodes(), lambda q: is_call(q, "clear", "free_node", "clear_recursive"))
         if other:
             und(dt[0], other[0], "the destructor does not call clear(); what %s does is not followed" % dtable.describe(other[0]))
         ck.violation("CLEAR-RESET", dt[0].qname, "dtor", "the destructor does not release the nodes (no clear())", dt[0].loc)
@@ -1366,7 +1654,8 @@ def check_clear_children(ck, tree, fn, loop):
     body = match.loop_parts(loop)[3]
     rec = [z for z in walk(body) if is_call(z, "clear_recursive")]
     fr = [z for z in walk(body) if is_call(z, "free_node")]
-    helpers = [z for z in walk(body) if own_call(tree, z) is not None and not is_call(z, "clear_recursive", "free_node")]
+    helpers = [z for z in walk(body) if own_call(tree, z) is not None and not is_call(z, "clear_recursive", "free_node")] + \
+        foreign_reaching(tree, fn, walk(body), lambda q: is_call(q, "clear_recursive", "free_node"))
     msg = None
     if not rec or not fr:
         if helpers:
@@ -1418,6 +1707,10 @@ def check_assign(ck, tree):
             if reaches(tree, own_call(tree, z), writes_alloc):
                 aw.append(z)
     copies = calls_reaching(tree, fn, "copy_recursive")
+    foreign = foreign_reaching(tree, fn, fn.nodes(), lambda q: is_call(q, "clear", "clear_recursive", "free_node", "copy_recursive") or
+                               writes_alloc(q))
+    if foreign:
+        und(fn, foreign[0], "%s() releases / copies nodes or replaces allocator_ and is not followed" % foreign[0]["callee"]["name"])
     if not aw or not copies:
         raise ir.AnalysisBroken("%s: allocator_ assignment / copy_recursive not found" % fn.full)
     if not clears:
@@ -1556,8 +1849,10 @@ def check_swap(ck, tu, tree):
                         state[lv(kids(ex)[0])] = rv(kids(ex)[1])
                 state[lv(b[1])] = v
                 continue
-            if any(z["k"] == "This" for z in walk(e)) or ref_of(e) == other or any(ref_of(z) == other for z in walk(e)):
-                unknown.append(e)
+            if any(z["k"] == "This" for z in walk(e)) or ref_of(e) == other or any(ref_of(z) == other for z in walk(e)) or \
+                    any(is_call(z) and fn.tu.by_did.get(z["callee"].get("did")) is not None and
+                        fn.tu.by_did[z["callee"]["did"]].body is not None for z in walk(e)):
+                unknown.append(e)         # (a closure that captured this / the other tree shows neither in its call)
         missing, vague = [], []
         for f in fields:
             a, b = get(("this", f)), get(("other", f))
@@ -1715,10 +2010,11 @@ def check_size_fn(ck, tree, fn, name, want):
         d = delta.get("size", 0)
         done = lf["val"].get("done")
         expect = want if done else 0
-        if d == expect:
+        writes_size = lambda q: (counter_write(q) or ("", ""))[0] == "size"        # noqa: E731
+        hidden = [z for z in nodes if own_call(tree, z) is not None and reaches(tree, own_call(tree, z), writes_size)] + \
+            foreign_reaching(tree, fn, nodes, writes_size)
+        if d == expect and not hidden:
             continue
-        hidden = [z for z in nodes if own_call(tree, z) is not None and
-                  reaches(tree, own_call(tree, z), lambda q: (counter_write(q) or ("", ""))[0] == "size")]
         if hidden:
             und(fn, hidden[0], "%s() changes stats_.size itself and is not followed" % hidden[0]["callee"]["name"])
         if unknown is not None:
@@ -1743,8 +2039,211 @@ def check_size_fn(ck, tree, fn, name, want):
 
 # ------------------------------------------------------------------ leaf chain
 class ChainShape(B.Shape):
-    """the alias model of btcommon, which additionally remembers (in the state's trace) when a path was split on a
-    condition the model does not interpret: on such a path 'no test was seen' is not evidence"""
+    """the alias model of btcommon for the leaf chain, made a closed world:
+    * control flow: if (with init / condition variable), return, continue / break of the loop whose body is the fragment,
+      throw; conditional operators over chain pointers fork the path like an if; comma expressions are executed in order;
+    * whatever else can change a chain pointer, an owner or a node pointer local (a statement kind, a store, a call, a loop)
+      is not skipped silently: the state is marked ('poison' in its trace) and the verdict on that path is 'cannot decide';
+    * it remembers when a path was split on a condition the model does not interpret: on such a path 'no test was seen' is
+      not evidence"""
+
+    loop_body = False            # the fragment is the body of a loop: continue / break end the step
+
+    def poison(self, st, n, why):
+        st.trace.append(("poison", "%s: %s" % (self.fn.nloc(n) if n is not None and n.get("l") else self.fn.loc, why)))
+
+    # ---- expressions
+    def ev(self, e, st):
+        e0 = unparen(e)
+        if e0 is not None and e0["k"] == "BinaryOperator" and e0.get("op") == ",":
+            self.ev(kids(e0)[0], st)
+            return self.ev(kids(e0)[1], st)
+        return B.Shape.ev(self, e0, st)
+
+    def assign(self, lhs, v, st, e):
+        l0 = unparen(lhs)
+        if l0 is not None and l0["k"] == "DeclRefExpr" and node_ptr_type(l0.get("ty")) and \
+                (l0["ref"].get("vty") or "").rstrip().endswith("&"):
+            self.poison(st, l0, "store through the reference %s to a node pointer" % l0["ref"]["name"])
+        if l0 is not None and l0["k"] == "MemberExpr" and kids(l0) and l0.get("member") in CHAINF:
+            m, base = l0["member"], unparen(kids(l0)[0])
+            if m in B.LINKS:
+                b = self.ev(base, st)
+                if b is None:
+                    # a store that the model cannot place is not an absent store
+                    self.poison(st, l0, "store to %s of a node the alias model cannot name (%s)" % (m, dtable.describe(base)))
+                    return
+                self.deref(b, st, l0)
+                st.heap[(b, m)] = v if v is not None else "unknown"
+                st.trace.append(("%s.%s" % (b, m), v))
+                return
+            if base is None or base["k"] != "This":
+                self.poison(st, l0, "store to %s through another name of the tree" % m)
+                return
+        B.Shape.assign(self, l0, v, st, e)
+
+    def exprs(self, e, st, var=None):
+        """one full expression (an expression statement, an initialiser, a returned value) evaluated on st -> states"""
+        e0 = unparen(e)
+        if e0 is None:
+            return [st]
+        if var is None and e0["k"] == "BinaryOperator" and e0.get("op") == ",":
+            out = []
+            for x in self.exprs(kids(e0)[0], st):
+                out += self.exprs(kids(e0)[1], x)
+            return out
+        cz = involved_conditional(e0)
+        if cz is not None:
+            cc, a, b = kids(cz)
+            # the stores of the expression that contain the conditional happen after it is evaluated; any other store of
+            # the same expression could come first
+            inside = {id(q) for q in walk(cz)}
+            for z in walk(e0):
+                t = store_target(z)
+                if t is not None and chain_lvalue(t) and id(z) not in inside and not any(q is cz for q in walk(z)):
+                    self.poison(st, z, "a store next to a conditional expression: the order of evaluation is not modelled")
+            out = []
+            for x, truth in self.cond_full(cc, st):
+                out += self.exprs(replace_node(e0, cz, a if truth else b), x, var)
+            return out
+        h = hidden_effect(self.fn, e0, comma=True)
+        if h is not None:
+            self.poison(st, h, "%s may change the leaf chain or a node pointer and is not executed by the alias model" % dtable.describe(h))
+        self.forget_flags(e0, st)
+        val = self.ev(e0, st)
+        if var is not None and (val is not None or "*" in (var.get("ty") or "")):
+            st.env[var["did"]] = val if val is not None else "unknown:%s" % var.get("name")
+        return [st]
+
+    def forget_flags(self, e, st):
+        """a bool local that is written (or whose address is taken) below e no longer has the value decided at its declaration"""
+        for z in walk(e):
+            t = store_target(z)
+            if t is None and z["k"] == "UnaryOperator" and z.get("op") == "&" and kids(z):
+                t = kids(z)[0]
+            if t is None and is_call(z):
+                for a in kids(z):
+                    d = ref_of(a)
+                    if d is not None and isinstance(st.env.get(d), bool):
+                        st.env.pop(d)               # possibly passed by reference
+                continue
+            d = ref_of(t) if t is not None else None
+            if d is not None and isinstance(st.env.get(d), bool):
+                st.env.pop(d)
+
+    def decl(self, v, st):
+        if v is None:
+            return [st]
+        if v["k"] != "VarDecl":
+            if any(node_ptr_type(z.get("ty")) or (z["k"] == "MemberExpr" and z.get("member") in CHAINF) for z in walk(v)):
+                self.poison(st, v, "declaration of an unknown kind (%s) over node pointers" % v["k"])
+            return [st]
+        if (v.get("isref") or (v.get("ty") or "").rstrip().endswith("&")) and node_ptr_type(v.get("ty")):
+            self.poison(st, v, "reference %s to a node pointer" % v.get("name"))
+        init = kids(v)[0] if kids(v) else None
+        if init is None:
+            return [st]
+        if (v.get("ty") or "").replace("const ", "").strip() == "bool" and not v.get("isref"):
+            # a flag: its value is decided where it is declared (the chain may change before it is tested)
+            out = []
+            for x, truth in self.cond_full(init, st):
+                x.env[v["did"]] = bool(truth)
+                out.append(x)
+            return out
+        return self.exprs(init, st, var=v)
+
+    def cond_full(self, c, st):
+        """Shape.cond() after forking on the conditional operators inside the condition"""
+        cz = involved_conditional(c)
+        if cz is not None:
+            cc, a, b = kids(cz)
+            out = []
+            for x, truth in self.cond_full(cc, st):
+                out += self.cond_full(replace_node(c, cz, a if truth else b), x)
+            return out
+        h = hidden_effect(self.fn, c, cond=True)
+        if h is not None:
+            self.poison(st, h, "%s inside a condition may change the leaf chain or a node pointer and is not executed by the alias model"
+                        % dtable.describe(h))
+        return self.cond(c, st)
+
+    # ---- statements
+    def stmt(self, s, st):
+        if s is None:
+            return [st]
+        k = s["k"]
+        if k == "CompoundStmt":
+            return self.run(kids(s), st)
+        if k == "NullStmt":
+            return [st]
+        if k == "IfStmt":
+            states = self.stmt(s["init"], st) if isinstance(s.get("init"), dict) else [st]
+            c, t, e = (kids(s) + [None, None])[:3]
+            out = []
+            for x in states:
+                for y in (self.decl(s["condvar"], x) if isinstance(s.get("condvar"), dict) else [x]):
+                    for y2, truth in self.cond_full(c, y):
+                        out += self.stmt(t if truth else e, y2)
+            return out
+        if k == "ReturnStmt":
+            out = self.exprs(kids(s)[0], st) if kids(s) and kids(s)[0] is not None else [st]
+            for x in out:
+                x.done = True
+            return out
+        if k == "DeclStmt":
+            states = [st]
+            for v in kids(s):
+                states = [y for x in states for y in self.decl(v, x)]
+            return states
+        if k in ("ContinueStmt", "BreakStmt"):
+            if self.loop_body and self.depth == 0:
+                st.trace.append(("left", k))         # the step ends here (loops inside the fragment are not entered)
+            else:
+                self.poison(st, s, "%s outside the loop body that is evaluated" % k)
+            st.done = True
+            return [st]
+        if k == "CXXThrowExpr":
+            st.trace.append(("left", k))
+            st.done = True
+            return [st]
+        if k in ("WhileStmt", "ForStmt", "DoStmt", "CXXForRangeStmt"):
+            # loops are not entered: they move elements, and must not touch what the model tracks
+            own = {z["did"] for z in walk(s) if z["k"] == "VarDecl" and "did" in z and
+                   not (z.get("isref") or (z.get("ty") or "").rstrip().endswith("&"))}
+            z = opaque_effect(self.fn, s, skip=own)
+            if z is None:
+                z = next((q for q in walk(s) if q["k"] == "MemberExpr" and q.get("member") in B.LINKS), None)
+            if z is None:
+                z = next((q for q in walk(s) if q["k"] in ("ReturnStmt", "GotoStmt")), None)
+            if z is not None:
+                self.poison(st, z, "a loop inside the fragment touches the leaf chain / leaves the function (%s)" % dtable.describe(z)[:80])
+            self.forget_flags(s, st)
+            return [st]
+        if k.endswith("Stmt") or k in ("CXXTryStmt",):
+            # switch, goto, label, try, ... : control flow the model does not follow
+            self.poison(st, s, "statement of a kind the alias model does not execute (%s)" % k)
+            return [st]
+        h = self.helper_of(s)
+        if h is not None:
+            cal, actual = h
+            for p, a in zip(cal.params, actual):
+                if writable_ref(p) and chain_lvalue(a):
+                    self.poison(st, a, "%s() receives %s by reference" % (cal.name, dtable.describe(a)))
+                he = hidden_effect(self.fn, a)
+                if he is not None:
+                    self.poison(st, he, "%s in an argument is not executed by the alias model" % dtable.describe(he))
+                v = self.ev(a, st)
+                if v is not None or "*" in (p.get("ty") or ""):
+                    st.env[p["did"]] = v if v is not None else "unknown:%s" % p.get("name")
+            self.depth += 1
+            try:
+                out = self.run(kids(cal.body), st)
+            finally:
+                self.depth -= 1
+            for x in out:
+                x.done = False
+            return out
+        return self.exprs(s, st)
 
     def cond(self, c, st):
         c0 = strip_casts(c)
@@ -1760,6 +2259,8 @@ class ChainShape(B.Shape):
                 else:
                     out.append((s, t))
             return out
+        if c0["k"] == "DeclRefExpr" and isinstance(st.env.get(c0["ref"]["id"]), bool):
+            return [(st, st.env[c0["ref"]["id"]])]           # a bool local whose value was decided at its declaration
         if is_call(c0, "is_leafnode"):
             s1, s2 = st.clone(), st.clone()
             s1.trace.append(("leafnode", True))
@@ -1806,56 +2307,48 @@ def opaque_of(s):
     return [x[1] for x in s.trace if x[0] == "opaque"]
 
 
+def vague_problem(p):
+    """a 'possibly-null <sym> dereferenced' finding about a pointer whose value the model never knew (a local it could not
+    evaluate) is not a finding about the code"""
+    return "possibly-null unknown" in p or "possibly-null var:" in p
+
+
 def vague_sym(x):
     return x is not None and (x == "unknown" or str(x).startswith(("unknown:", "var:")))
 
 
-def chain_preconditions(fn, stmts, tree, depth=0):
-    """constructs through which a chain pointer can change without the alias model seeing it"""
-    for s in stmts:
-        for z in walk(s):
-            if z["k"] == "VarDecl" and (z.get("isref") or (z.get("ty") or "").rstrip().endswith("&")) and kids(z) and \
-                    strip_casts(kids(z)[0]) is not None and strip_casts(kids(z)[0])["k"] == "MemberExpr" and \
-                    strip_casts(kids(z)[0]).get("member") in B.LINKS + B.OWNERS:
-                und(fn, z, "reference alias of a chain pointer")
-            if z["k"] == "UnaryOperator" and z.get("op") == "&" and strip_casts(kids(z)[0])["k"] == "MemberExpr" and \
-                    strip_casts(kids(z)[0]).get("member") in B.LINKS + B.OWNERS:
-                und(fn, z, "address of a chain pointer taken")
-            if is_call(z) and not is_call(z, "allocate_leaf"):
-                args = kids(z)[1:] if z.get("member_call") else kids(z)
-                if z["k"] == "CXXOperatorCallExpr":
-                    continue
-                for a in args:
-                    if a is not None and a["k"] == "MemberExpr" and a.get("member") in B.LINKS + B.OWNERS and a.get("lv"):
-                        und(fn, z, "%s() receives a chain pointer by reference" % z["callee"]["name"])
-            if z["k"] in ("ConditionalOperator",) and any(q["k"] == "MemberExpr" and q.get("member") in B.LINKS + B.OWNERS for q in walk(z)):
-                und(fn, z, "conditional expression over chain pointers")
-            if is_call(z) and not is_call(z, "allocate_leaf", fn.name):
-                # the model executes helpers that are member calls on *this and form a statement of their own; any other
-                # function of the program that touches the chain is invisible to it
-                cal = fn.tu.by_did.get(z["callee"].get("did"))
-                if cal is not None and cal.body is not None and mentions_member(cal.body, *(B.LINKS + B.OWNERS)):
-                    par = fn.parent(z)
-                    while par is not None and par["k"] in CASTS + ("ExprWithCleanups", "ParenExpr"):
-                        par = fn.parent(par)
-                    stmt_like = par is not None and par["k"] in ("CompoundStmt", "IfStmt") and not (par["k"] == "IfStmt" and kids(par)[0] is z)
-                    if not (this_call(z) and tree is not None and z["callee"].get("did") in tree.by_did and stmt_like):
-                        und(fn, z, "%s() touches the leaf chain and is not executed by the alias model" % z["callee"]["name"])
+def poison_of(s):
+    return [x[1] for x in s.trace if x[0] == "poison"]
 
 
-def run_shape(fn, stmts, setup, tree=None):
+def left_by(s, *kinds):
+    return any(x[0] == "left" and (not kinds or x[1] in kinds) for x in s.trace)
+
+
+def run_shape(fn, stmts, setup, tree=None, loop_body=False):
+    """the final states of the fragment on the alias model.  Constructs through which a chain pointer can change without the
+    model executing it (reference aliases, address-of, by-reference arguments, callees / closures that touch the chain,
+    loops, unknown statement kinds, stores to nodes the model cannot name) poison the state of the path they are on; the
+    callers answer 'cannot decide' for a poisoned path"""
     sh = ChainShape(fn, tree=tree)
+    sh.loop_body = loop_body
     st = B.ShapeState()
     setup(st)
     sh.entry = dict(st.heap)         # the links as they are when the fragment is entered
-    chain_preconditions(fn, stmts, tree)
-    # loops inside the fragment must not touch the chain
-    for s in stmts:
-        for l in match.loops_in(s):
-            for z in walk(l):
-                if z["k"] == "MemberExpr" and z.get("member") in B.LINKS:
-                    raise ir.AnalysisBroken("%s: chain pointer written inside a loop" % fn.full)
     return sh.run(stmts, st)
+
+
+def undecided_path(fn, s):
+    p = poison_of(s)
+    if p:
+        und(fn, None, "leaf chain of %s: %s" % (fn.name, p[0]))
+
+
+def same_node(s, a, b):
+    """a and b denote the same node on the path s; a symbol that the path knows to be null is the null pointer"""
+    ca = "NULL" if a is not None and s.is_null(a) is True else a
+    cb = "NULL" if b is not None and s.is_null(b) is True else b
+    return ca == cb
 
 
 def settle(fn, s, bad, values=()):
@@ -1886,6 +2379,9 @@ def check_chain_split(ck, tree):
     outs = run_shape(fn, kids(fn.body), setup, tree)
     bad = None
     for s in outs:
+        if left_by(s, "CXXThrowExpr"):
+            continue
+        undecided_path(fn, s)
         if len(s.news) == 0:
             und(fn, None, "split_leaf_node: the new leaf is not obtained through allocate_leaf() on a path")
         if len(s.news) != 1:
@@ -1902,18 +2398,20 @@ def check_chain_split(ck, tree):
         elif soft:
             if opaque_of(s):
                 und(fn, None, "split_leaf_node: %s; the path is decided by %s, which is not interpreted" % (soft[0], opaque_of(s)[0]))
+            if vague_problem(soft[0]):
+                und(fn, None, "split_leaf_node: %s; the model does not know that pointer" % soft[0])
             bad = soft[0]
-        elif nn != "X":
+        elif not same_node(s, nn, "X"):
             bad = settle(fn, s, "new->next_leaf is %s, must be the old successor" % nn, [nn])
-        elif npv != "L":
+        elif not same_node(s, npv, "L"):
             bad = settle(fn, s, "new->prev_leaf is %s, must be the split leaf" % npv, [npv])
-        elif ln != N:
+        elif not same_node(s, ln, N):
             bad = settle(fn, s, "leaf->next_leaf is %s, must be the new leaf" % ln, [ln])
-        elif xnull is True and tl != N:
+        elif xnull is True and not same_node(s, tl, N):
             if opaque_of(s):
                 und(fn, None, "split_leaf_node: tail_leaf_ is %s when the split leaf was the tail; the path is decided by %s" % (tl, opaque_of(s)[0]))
             bad = settle(fn, s, "the split leaf was the tail; tail_leaf_ must become the new leaf", [tl])
-        elif xnull is False and xp != N:
+        elif xnull is False and not same_node(s, xp, N):
             if opaque_of(s):
                 und(fn, None, "split_leaf_node: successor.prev_leaf is %s; the path is decided by %s" % (xp, opaque_of(s)[0]))
             bad = settle(fn, s, "the old successor's prev_leaf must point to the new leaf (reverse iteration skips it otherwise)", [xp])
@@ -1945,6 +2443,9 @@ def check_chain_merge(ck, tree):
     outs = run_shape(fn, kids(fn.body), setup2, tree)
     bad = None
     for s in outs:
+        if left_by(s, "CXXThrowExpr"):
+            continue
+        undecided_path(fn, s)
         xnull = s.null.get("X")
         ln, xp, tl = s.heap.get(("L", "next_leaf")), s.heap.get(("X", "prev_leaf")), s.tf.get("tail_leaf_")
         hard = [p for p in s.problems if "possibly-null" not in p]
@@ -1954,14 +2455,16 @@ def check_chain_merge(ck, tree):
         elif soft:
             if opaque_of(s):
                 und(fn, None, "merge_leaves: %s; the path is decided by %s, which is not interpreted" % (soft[0], opaque_of(s)[0]))
+            if vague_problem(soft[0]):
+                und(fn, None, "merge_leaves: %s; the model does not know that pointer" % soft[0])
             bad = soft[0]
-        elif ln != "X":
+        elif not same_node(s, ln, "X"):
             bad = settle(fn, s, "left->next_leaf is %s, must skip the emptied right leaf" % ln, [ln])
-        elif xnull is True and tl != "L":
+        elif xnull is True and not same_node(s, tl, "L"):
             if opaque_of(s):
                 und(fn, None, "merge_leaves: tail_leaf_ is %s when the emptied leaf was the tail; the path is decided by %s" % (tl, opaque_of(s)[0]))
             bad = settle(fn, s, "the emptied leaf was the tail; tail_leaf_ must become the left leaf (it dangles after the free otherwise)", [tl])
-        elif xnull is False and xp != "L":
+        elif xnull is False and not same_node(s, xp, "L"):
             if opaque_of(s):
                 und(fn, None, "merge_leaves: successor.prev_leaf is %s; the path is decided by %s" % (xp, opaque_of(s)[0]))
             bad = settle(fn, s, "the successor's prev_leaf still points to the emptied leaf, which is freed by the parent", [xp])
@@ -1993,15 +2496,19 @@ def check_chain_bulk(ck, tree, fn):
     loops = [l for l in match.loops_in(fn.body) if any(is_call(z, "allocate_leaf") for z in walk(l))]
     if len(loops) != 1:
         raise ir.AnalysisBroken("%s: leaf loop not found" % fn.full)
-    body = match.loop_parts(loops[0])[3]
-    check_append(ck, tree, fn, kids(body) if body["k"] == "CompoundStmt" else [body], "bulk")
+    init, cond, inc, body = match.loop_parts(loops[0])
+    for part in (init, cond, inc):
+        z = opaque_effect(fn, part) if part is not None else None
+        if z is not None:
+            und(fn, z, "the head of the leaf loop touches the leaf chain (%s)" % dtable.describe(z))
+    check_append(ck, tree, fn, kids(body) if body["k"] == "CompoundStmt" else [body], "bulk", loop_body=True)
 
 
-def check_append(ck, tree, fn, stmts, what, leaf_paths=False):
+def check_append(ck, tree, fn, stmts, what, leaf_paths=False, loop_body=False):
     def setup(st):
         st.tf["head_leaf_"] = "H"
         st.tf["tail_leaf_"] = "T"
-    outs = run_shape(fn, stmts, setup, tree)
+    outs = run_shape(fn, stmts, setup, tree, loop_body=loop_body)
     if leaf_paths:
         # the whole function was run: the paths of the leaf case are those on which is_leafnode() held
         outs = [s for s in outs if ("leafnode", True) in s.trace]
@@ -2015,6 +2522,14 @@ def check_append(ck, tree, fn, stmts, what, leaf_paths=False):
         if hn is not None and tn is not None and hn != tn:
             continue
         empty = hn if hn is not None else tn
+        if left_by(s, "CXXThrowExpr"):
+            continue
+        undecided_path(fn, s)
+        if len(s.news) == 0 and left_by(s, "ContinueStmt", "BreakStmt"):
+            # a step that is skipped / the loop is left before a leaf was made: the chain must be untouched
+            if any(x[0] in B.OWNERS or (isinstance(x[0], str) and x[0].endswith(B.LINKS)) for x in s.trace):
+                und(fn, None, "%s: the chain is written on a step that makes no leaf" % fn.name)
+            continue
         if len(s.news) == 0:
             und(fn, None, "%s: the appended leaf is not obtained through allocate_leaf() on a path" % fn.name)
         if len(s.news) != 1:
@@ -2029,19 +2544,21 @@ def check_append(ck, tree, fn, stmts, what, leaf_paths=False):
             if probs:
                 if "possibly-null" in probs[0] and op:
                     und(fn, None, "%s: %s; the path is decided by %s, which is not interpreted" % (fn.name, probs[0], op[0]))
+                if vague_problem(probs[0]):
+                    und(fn, None, "%s: %s; the model does not know that pointer" % (fn.name, probs[0]))
                 bad = probs[0]
                 break
         tl, hd, nn, npv, tn_ = (s.tf.get("tail_leaf_"), s.tf.get("head_leaf_"), s.heap.get((N, "next_leaf")), s.heap.get((N, "prev_leaf")),
                                 s.heap.get(("T", "next_leaf")))
-        if tl != N:
+        if not same_node(s, tl, N):
             bad = settle(fn, s, "tail_leaf_ is %s after appending, must be the new leaf" % tl, [tl])
-        elif nn != "NULL":
+        elif not same_node(s, nn, "NULL"):
             bad = settle(fn, s, "the appended leaf's next_leaf must be null", [nn])
-        elif empty is True and (hd != N or npv != "NULL"):
+        elif empty is True and (not same_node(s, hd, N) or not same_node(s, npv, "NULL")):
             if op:
                 und(fn, None, "%s: first leaf: head=%s prev=%s on a path decided by %s" % (fn.name, hd, npv, op[0]))
             bad = settle(fn, s, "first leaf: head_leaf_ must be the new leaf and its prev_leaf null", [hd, npv])
-        elif empty is False and (tn_ != N or npv != "T" or hd != "H"):
+        elif empty is False and (not same_node(s, tn_, N) or not same_node(s, npv, "T") or not same_node(s, hd, "H")):
             if op:
                 und(fn, None, "%s: append after the tail: T.next=%s new.prev=%s head=%s on a path decided by %s" % (fn.name, tn_, npv, hd, op[0]))
             bad = settle(fn, s, "appending after tail T: T.next=%s new.prev=%s head=%s (want new, T, unchanged)" % (tn_, npv, hd), [tn_, npv, hd])
@@ -2107,6 +2624,16 @@ def _one_check_sep_update(ck, tree, name):
                          % (bad[0], bad[1]), fn.nloc(region))
         else:
             ck.ok("SEP-UPDATE", tree.where(fn, kind), "%d situations: separator written at parentslot or handed to the caller" % nv)
+
+
+def sep_operation(q):
+    """q writes a separator key or names the update-lastkey flag"""
+    if q["k"] == "DeclRefExpr" and q["ref"]["name"] == "btree_update_lastkey":
+        return True
+    if is_call(q, *COPYLIKE) and len(kids(q)) >= 3 and mentions_member(kids(q)[2], "slotkey"):
+        return True
+    t = store_target(q) if q["k"] in ("UnaryOperator", "BinaryOperator", "CompoundAssignOperator", "CXXOperatorCallExpr") else None
+    return t is not None and mentions_member(t, "slotkey")
 
 
 def sep_model(fn, roles, loc, kind, frag, trigger, ps, n):
@@ -2221,6 +2748,10 @@ def sep_model(fn, roles, loc, kind, frag, trigger, ps, n):
             elif match.binop(e, ("|=",)) and any(is_call(z) and z["k"] not in ("CXXConstructExpr", "CXXTemporaryObjectExpr") and
                                                  not z["callee"]["name"].startswith("operator") for z in walk(match.binop(e, ("|=",))[2])):
                 unknown.append(e)                 # a result merged in from a call that is not followed
+            elif foreign_reaching(None, fn, [z for z in walk(e) if is_call(z) and not is_call(z, "key", "has", "free_node") and
+                                             z["k"] not in ("CXXConstructExpr", "CXXTemporaryObjectExpr") and
+                                             not (z["callee"]["name"].startswith("operator") and z.get("op") != "()")], sep_operation):
+                unknown.append(e)                 # a closure / helper that writes separators or raises the flag itself
         trig = v[trigger]
         direct = v["P"] and ps < PN
         if not trig:
@@ -2317,6 +2848,14 @@ def check_results_used(ck, tree):
                 used = True
             if par is not None and par["k"] in ("WhileStmt", "ForStmt") and not any(x is z for x in walk(match.loop_parts(par)[3])):
                 used = True
+            # the same discarded-value statement under a case / default / label, or as the body of a do / range-for / switch
+            if par is not None and par["k"] in ("CaseStmt", "DefaultStmt", "LabelStmt", "AttributedStmt") and kids(par) and \
+                    any(x is z for x in walk(kids(par)[-1])):
+                used = False
+            if par is not None and par["k"] == "DoStmt" and kids(par) and any(x is z for x in walk(kids(par)[0])):
+                used = False
+            if par is not None and par["k"] in ("SwitchStmt", "CXXForRangeStmt") and kids(par) and any(x is z for x in walk(kids(par)[-1])):
+                used = False
             if not used:
                 ck.violation("RESULT-KEPT", fn.qname, "%s:%s" % (name, z["callee"]["name"]),
                              "the result of %s() is dropped: the parent never learns that a node was emptied (btree_fixmerge) or that the "
